@@ -41,6 +41,27 @@ def zeroMsg (f : FieldInfo) : GoVal :=
 def zeroElem (f : FieldInfo) : GoVal :=
   if f.kind == .objectList then zeroMsg f else zeroPrim f
 
+/-- `!v.Null && !v.Unknown` of an asserted value -/
+def TfVal.isKnown : TfVal → Bool
+  | .prim _ u n _ => known u n | .list u n _ _ => known u n | .map u n _ _ => known u n | .obj u n _ _ => known u n
+  | _ => false
+
+/-- `if obj.<Parent> == nil { obj.<Parent> = &Parent{} }` -/
+def allocParent (f : FieldInfo) (obj : GoVal) : GoVal :=
+  match obj.field? f.parentIsOptionalEmbedFieldName with
+  | some (.ptr (some _)) => obj
+  | _ => obj.setField f.parentIsOptionalEmbedFieldName (.ptr (some (.struct [])))
+
+/-- `withOptionalEmbedParent`: the struct the code of a message / list / map child of a nullable embedded message
+runs on – a known value allocates the embedded message first; `none`: there is no embedded message and the value is
+null or unknown, the field code is skipped -/
+def embedGuard (f : FieldInfo) (a : TfVal) (obj : GoVal) : Option GoVal :=
+  if f.parentIsOptionalEmbed && f.kind != .primitive then
+    match obj.field? f.parentIsOptionalEmbedFieldName with
+    | some (.ptr (some _)) => some obj
+    | _ => if a.isKnown then some (allocParent f obj) else none
+  else some obj
+
 /-- `genPrimitiveBody`: the Go value `t` decoded from a primitive Terraform value -/
 def primDecode (f : FieldInfo) (k : PrimK) (unk null : Bool) (p : Sc) : Outcome GoVal :=
   if known unk null then
@@ -87,6 +108,8 @@ def copyFromFieldWith (rec : FromRec) (overrides : List (String × String)) (inf
     -- a, ok := tf.Attrs[name]; if !ok { diag }; CopyFrom<S>(diags, a, &obj.F)
     let st := match a? with | none => st.diag (.readMissing info.path) | some _ => st
     let a := a?.getD .nilv
+    -- the hook gets `&obj.F`: a nil embedded parent is allocated first
+    let st := if info.parentIsOptionalEmbed then { st with obj := allocParent info st.obj } else st
     match writeField info st.obj (hookFrom info.isRepeated a) with
     | .ok o => .ok { st with obj := o, hooks := st.hooks ++ [.copyFrom ("CopyFrom" ++ info.suffix) a] }
     | .panic w => .panic w
@@ -98,6 +121,10 @@ def copyFromFieldWith (rec : FromRec) (overrides : List (String × String)) (inf
     -- v, ok := a.(ValueType)
     if a.vkind != vkindOf info.tf.valueType || a.vkind == .unknown then .ok (st.diag (.readConv info.path info.tf.valueType))
     else
+    match embedGuard info a st.obj with
+    | none => .ok st
+    | some obj0 =>
+    let st := { st with obj := obj0 }
     match info.kind, a with
     | .primitive, .prim k unk null p =>
       match primDecode info k unk null p with
